@@ -85,6 +85,10 @@ def _get_constant_tuple_prefix(value: abstract.Tuple):
       )
     except abstract_utils.ConversionError:
       return tuple(elements)
+    if isinstance(element, (tuple, list, dict, set, frozenset)):
+      # The constant of a container holds cfg Variables (or abstract values),
+      # which compare by identity, so it cannot be compared natively.
+      return tuple(elements)
     elements.append(element)
   return tuple(elements)
 
